@@ -203,7 +203,15 @@ class EpisodeSim:
                         if cls == "may":
                             run.probe("band_may_action")
                     if ref is not None:
-                        ref.apply(a)
+                        try:
+                            ref.apply(a)
+                        except Exception:  # noqa: BLE001
+                            # the reference cannot follow an action the environment admitted (only possible for
+                            # the scheduling / selection references, whose admissibility is C07/C08's claim, not
+                            # this property's): drop the reference for this row and go on with the generic bounds
+                            run.probe("reference_lost_sync")
+                            refs[pos] = ref = None
+                    if ref is not None:
                         run.state(name, tuple(sorted(getattr(ref, "visited", []))) if hasattr(ref, "visited") else t,
                                   getattr(ref, "cur", 0))
                 acts.append(a)
@@ -494,8 +502,8 @@ def _library_rollout(run):
     torch.manual_seed(run.streams.torch_seed("rollout"))
     try:
         _, td2, actions = rollout(env, td, random_policy, max_steps=cap)
-    except RuntimeError as e:
-        if "multinomial" in str(e) or "probability" in str(e):
+    except Exception as e:  # noqa: BLE001
+        if isinstance(e, RuntimeError) and ("multinomial" in str(e) or "probability" in str(e)):
             run.violate(name, "all_masked_row_sampled", f"rollout(): {str(e)[:200]}", constraint="all_masked", cfg=cfg)
             raise StopRun()
         with run.guard(name, "library rollout"):
